@@ -403,7 +403,7 @@ def gen_history(rng, n):
     for i in range(n):
         npeers = rng.choice([1, 1, 2, 3])
         steps = rng.choice([2, 3, 3, 4, 5, 6, 9])
-        fam = rng.choice(["in-order", "shuffled", "stale-overwrite", "between", "equal-ts", "random"])
+        fam = rng.choice(["in-order", "shuffled", "stale-overwrite", "between", "equal-ts", "random", "later-first", "later-first"])
         ds = []
         for p in range(npeers):
             # an honest timeline: (seconds ago, live_time, payments), newest last
@@ -426,6 +426,17 @@ def gen_history(rng, n):
                     else:
                         timeline[j][2] = max(timeline[rng.randrange(0, j)][2] - rng.choice([1, 5]), 0)
             order = list(range(len(timeline)))
+            if fam == "later-first":
+                # the newest quote reports less than an earlier one and is delivered first
+                k = rng.choice(["lt", "rpc"])
+                j = rng.randrange(0, len(timeline) - 1)
+                if k == "lt":
+                    timeline[-1][1] = max(timeline[j][1] - rng.choice([1, 2]), 0)
+                    timeline[j][1] += 1
+                else:
+                    timeline[-1][2] = max(timeline[j][2] - rng.choice([1, 5]), 0)
+                    timeline[j][2] += 1
+                order = [len(order) - 1, j] + [x for x in order if x not in (len(order) - 1, j)]
             if fam == "shuffled" or fam == "random":
                 rng.shuffle(order)
             elif fam == "stale-overwrite" and len(order) >= 3:
@@ -812,13 +823,15 @@ def oracle(c, o):
                 delivered.setdefault(p, {})[t] = (q["m"]["lt"], q["m"]["rpc"])
                 ref_t = stored.get(p)
                 ref = delivered[p].get(ts_ns(ref_t)) if ref_t else None
-                if (not bad.get(p, False) and ref is not None and ts_ns(ref_t) <= t
-                        and (q["m"]["lt"] < ref[0] or q["m"]["rpc"] < ref[1])
+                regress_fwd = ref is not None and ts_ns(ref_t) <= t and (q["m"]["lt"] < ref[0] or q["m"]["rpc"] < ref[1])
+                # earlier quote arriving after a later reference that reports less than it
+                regress_bwd = ref is not None and ts_ns(ref_t) > t and (ref[0] < q["m"]["lt"] or ref[1] < q["m"]["rpc"])
+                if (not bad.get(p, False) and (regress_fwd or regress_bwd)
                         and (not before or since.get(p, 0) > 10) and total_age <= 250 and len(before) < 10):
                     if r["issues"] != before + [2]:
                         v.append(("history-regression-missed",
                                   "step %d: peer %d is not considered bad (issues on record: %s, last one %s s ago) and delivers a quote "
-                                  "that is newer than its reference but reports less (live_time %d -> %d, payments %d -> %d); no "
+                                  "that is inconsistent with its reference (the later of the two reports less) (live_time %d -> %d, payments %d -> %d); no "
                                   "BadQuoting issue was recorded (issues afterwards: %s)"
                                   % (i, p, before, since.get(p), ref[0], q["m"]["lt"], ref[1], q["m"]["rpc"], r["issues"])))
             if r["is_bad"] and not bad.get(p, False):
@@ -847,6 +860,16 @@ def oracle(c, o):
                     v.append(("regression-older-than-newest", what + "; a newer accepted quote exists, and only that one is kept as reference"))
                 else:
                     v.append(("history-regression-missed", what))
+            # the same pair in the other order of arrival: the quote now delivered is EARLIER than the peer's newest
+            # accepted quote, and that later quote reports less than this one -- the later/earlier pair is inconsistent
+            # and the code compares exactly these two (the reference is the newest accepted), so it must be flagged now
+            if earlier and not st["flagged"]:
+                h = max(earlier)
+                if h[0] > t and (h[1] < lt or h[2] < rpc):
+                    v.append(("history-regression-missed",
+                              "step %d: peer %d delivers a quote dated %.1f s BEFORE its newest accepted quote, which reports less "
+                              "(live_time %d -> %d, payments %d -> %d going forward in time); the pair is not flagged"
+                              % (i, p, (h[0] - t) / NS, lt, h[1], rpc, h[2])))
             if st["flagged"] and not any(x == "BadQuoting" for x in st["issues"]):
                 v.append(("history-issue-kind", "step %d recorded %s" % (i, st["issues"])))
             if not st["flagged"]:
